@@ -28,8 +28,10 @@ EXTENDS Integers, Sequences, FiniteSets, TLC, Json
 CONSTANTS MaxNodes, MaxEdges
 
 Mutable == {"list", "dict", "set"}
-Composite == {"tuple", "struct", "default", "closure", "mutclosure", "rebclosure", "bound"}
-Flagged == Mutable \cup {"struct", "closure", "mutclosure", "rebclosure"}   \* closure: the flag of its cell
+\* "structsum": base + struct(f = child) where base is a struct the host froze before (a value built by an operator from
+\* an already frozen operand is a new, unfrozen value)
+Composite == {"tuple", "struct", "structsum", "default", "closure", "mutclosure", "rebclosure", "bound"}
+Flagged == Mutable \cup {"struct", "structsum", "closure", "mutclosure", "rebclosure"}   \* closure: the flag of its cell
 
 VARIABLES kind,      \* sequence of node kinds, node n = kind[n]
           edges,     \* set of <<a, b>>
